@@ -72,12 +72,12 @@ impl Drop for Guard {
     }
 }
 
-/// Context id of a weak wrapper whose node carries no anchor (parser anchor ids start at 1).
+/// Context id of a wrapper whose node carries no anchor (parser anchor ids start at 1).
 pub(crate) const NOT_ANCHORED: usize = 0;
 
-/// A weak wrapper always gets a context of its own, so that it never mistakes the anchor of an
+/// Every anchor wrapper gets a context of its own, so that it never mistakes the anchor of an
 /// enclosing wrapper for its own: a node without an anchor is entered under [`NOT_ANCHORED`].
-pub(crate) fn weak_context_id(anchor: Option<usize>) -> Option<usize> {
+pub(crate) fn own_context_id(anchor: Option<usize>) -> Option<usize> {
     Some(anchor.unwrap_or(NOT_ANCHORED))
 }
 
